@@ -1037,12 +1037,14 @@ def move_imports_to_toplevel(source: str) -> str:
             lineno = 1
 
     # Nothing may come before from __future__ imports
-    lineno = max(
-        [lineno]
-        + [
+    first_allowed_lineno = max(
+        (
             node.end_lineno + 1
             for node in core.filter_nodes(root.body, ast.ImportFrom(module="__future__"))
-    ])
+        ),
+        default=1,
+    )
+    lineno = max(lineno, first_allowed_lineno)
 
     additions = []
     removals = []
@@ -1082,6 +1084,8 @@ def move_imports_to_toplevel(source: str) -> str:
             and re.findall(r"^\s+", source_lines[safe_position_lineno])
         ):
             safe_position_lineno -= 1
+
+        safe_position_lineno = max(safe_position_lineno, first_allowed_lineno)
 
         if isinstance(node, ast.Import):
             new_node = ast.Import(names=node.names, lineno=safe_position_lineno)
